@@ -144,6 +144,11 @@ func writeLemmaReplay(prop string, l *LemmaResult) string {
 	return p
 }
 
+var optDoc = map[string]string{
+	"reclaim_succeeds_if_funded": "A-BANK-LIVE: taking back and burning the coins minted a moment ago (SendCoinsFromAccountToModule, BurnCoins) fails only when the balance does not cover the amount",
+	"send_succeeds_if_funded":    "A-BANK-LIVE: BankKeeper.SendCoins of one valid coin fails only when the sender's balance does not cover the amount (no send restriction rejects it); used by the completeness clause 'every committed unclaimed withdrawal is claimable'",
+}
+
 func writeEvidence(path, prop, tier string, cfg *PropConfig, reps []*FuncReport, lemmas []*LemmaResult, res *Summary) {
 	trusted := map[string]bool{}
 	var funcs []map[string]interface{}
@@ -158,6 +163,9 @@ func writeEvidence(path, prop, tier string, cfg *PropConfig, reps []*FuncReport,
 		}
 		for _, w := range r.Warnings {
 			warnings = append(warnings, r.Key+": "+w)
+		}
+		for _, o := range r.Opts {
+			trusted["contract option "+o+" on "+r.Key+" — "+optDoc[o]] = true
 		}
 	}
 	for _, a := range []string{"A-TX: a message whose handler errors or panics leaves no state behind (baseapp branch/discard)",
